@@ -35,6 +35,7 @@ def install():
     if REPLAY is None:
         base.np = shim
         rd.np = shim
+        gd.np = shim
         inc.isclose = isclose_stub
     _installed.update(base=base, rd=rd, inc=inc, gd=gd, shim=shim)
     return _installed
